@@ -154,7 +154,7 @@ def run(prog, ctx):
                       "constructed DataSet inherits the scaling attributes (%s)" % how,
                       "`%s` builds a DataSet that is handed out without self._update_internal(...): it loses the scaling attributes"
                       % src(call))
-    ctx.floor("C18.D2.sites", nsites, 8, "DataSet constructor sites in DataSet methods")
+    ctx.floor("C18.D2.sites", nsites, 4, "DataSet constructor sites in DataSet methods")
 
     # ------------------------------------------------------------------ D3
     D0 = ("s", ("a", ("n", "self"), "_data"), ("c", "0"))
@@ -268,7 +268,7 @@ def run(prog, ctx):
     ctx.check(ok, "C18.D3", R.key_of(mv, "aligned:swap"), mv.loc(),
               "samples and labels are swapped with the same index pair",
               "move_boundaries_to_front does not swap samples and labels with the same index pair")
-    ctx.floor("C18.D3", n3, 9, "parallel-array instances")
+    ctx.floor("C18.D3", n3, 5, "parallel-array instances")
 
     # ------------------------------------------------------------------ D5
     check_bookkeeping(prog, ctx, ds)
